@@ -31,8 +31,10 @@ RANGE_ALPHA = [(0,), (-1,), (U32 + 1,), ("'ff'H",), ("'00'H",)] + \
               [(a, b) for i, a in enumerate(_PTS) for b in _PTS[i + 1:]] + \
               [(0, U64), ("'0101'B", "'ffff'h"), ("'00'h", "'ff'H"), (-5, "'0'B"), (U32, U32 + 1), (0, 0)]
 ENUMS = [[('up', 1)], [('up', 1), ('down', 2)], [('zero', 0), ('neg-one', -1), ('big', 2147483647)],
-         [('c', 3), ('a', 1), ('b', 2)]]
-BITSETS = [[('b0', 0)], [('b0', 0), ('b1', 1), ('b-9', 9)], [('hi', 7), ('lo', 0)]]
+         [('c', 3), ('a', 1), ('b', 2)],
+         # labels that are also keys of the intermediate representation
+         [('oid', 1), ('description', 2), ('units', 3)], [('name', 1), ('class', 2), ('type', 3), ('default', 4)]]
+BITSETS = [[('b0', 0)], [('b0', 0), ('b1', 1), ('b-9', 9)], [('hi', 7), ('lo', 0)], [('oid', 0), ('name', 1), ('bits', 2)]]
 
 # type word -> refinement kinds the grammar accepts
 ALLOWED = {
@@ -92,8 +94,9 @@ def json_syntax_ok(got, syn):
     return bad
 
 
-def pysnmp_syntax_ok(cls, syn, parent_name=None):
-    """cls: recorded class of the syntax.  Compare parent class, constraint pieces, named values."""
+def pysnmp_syntax_ok(cls, syn, parent_name=None, inherited=None):
+    """cls: recorded class of the syntax.  Compare parent class, constraint pieces, named values.
+    inherited: constraint pieces of the parent class, which a derived class carries in front of its own."""
     bad = []
     chain = cls.chain()
     if syn[0] == 'bits':
@@ -104,6 +107,10 @@ def pysnmp_syntax_ok(cls, syn, parent_name=None):
         bad.append('class chain %r lacks parent %r' % (chain, parent))
     sub = syn[2] if len(syn) > 2 and syn[0] != 'bits' else None
     pieces = pysnmp_rec.constraints_of(cls)
+    if inherited:
+        if pieces[:len(inherited)] != inherited:
+            bad.append('constraints %r do not start with those of the parent type %r' % (pieces, inherited))
+        pieces = pieces[len(inherited):]
     if syn[0] == 'bits':
         nv = pysnmp_rec.named_values_of(cls)
         if nv is None or dict(nv) != dict(syn[1]):
@@ -467,6 +474,89 @@ class Defaults(object):
         return repr(outcome), vs, 2
 
 
+class RefinedChains(object):
+    name = 'refined-chains-orders'
+    describe = ('Base <- Mid <- object, EVERY link with its own refinement (enumeration subsets / narrowing ranges / SIZEs), Base and '
+                'Mid each a plain assignment or a TC, the object with and without a DEFVAL and with / without its own refinement: '
+                'every declaration order of (object, Mid, Base, second object of type Mid); every emitted type keeps exactly its '
+                'own refinement')
+
+    VARIANTS = {
+        'enum': (('simple', 'INTEGER'), ('enum', [('a', 1), ('b', 2), ('c', 3)]), ('enum', [('a', 1), ('b', 2)]), ('enum', [('a', 1)]),
+                 ('id', 'a')),
+        'range': (('simple', 'INTEGER'), ('range', [(0, 100), (200, 300)]), ('range', [(0, 10)]), ('range', [(2, 5)]), ('num', 5)),
+        'size': (('simple', 'OCTET STRING'), ('size', [(0, 100)]), ('size', [(0, 10)]), ('size', [(1, 4)]), ('str', 'abc')),
+    }
+
+    def blocks(self, tier):
+        return [{'v': v, 'kinds': k} for v in sorted(self.VARIANTS) for k in ('TT', 'TC', 'CT')]
+
+    def cases(self, block, tier):
+        for perm in itertools.permutations(range(4)):
+            for dv in (0, 1):
+                for own in (0, 1):
+                    yield {'v': block['v'], 'kinds': block['kinds'], 'perm': list(perm), 'dv': dv, 'own': own}
+
+    def run_case(self, case):
+        base, r0, r1, r2, dv = self.VARIANTS[case['v']]
+        syn_base = base + (r0,)
+        syn_mid = ('ref', 'BaseType', r1)
+        syn_obj = ('ref', 'MidType', r2) if case['own'] else ('ref', 'MidType')
+
+        def td(name, kind, syn):
+            if kind == 'C':
+                return {'k': 'tc', 'name': name, 'display': None, 'status': 'current', 'descr': 'd', 'syntax': syn}
+            return {'k': 'type', 'name': name, 'syntax': syn}
+        items = [obj('dvObj', syn_obj, 1, defval=dv if case['dv'] else None), td('MidType', case['kinds'][1], syn_mid),
+                 td('BaseType', case['kinds'][0], syn_base), obj('otherObj', ('ref', 'MidType'), 2)]
+        decls = ctx() + [items[i] for i in case['perm']]
+        mod = refir.finish_module({'name': 'TEST-MIB', 'decls': decls})
+        texts, out = compile_both([mod], ['TEST-MIB'])
+        first = ['obj', 'mid', 'base', 'other'][case['perm'][0]]
+        sig = 'C05|refined-chain|%s|%s|%s-first%s' % (case['v'], case['kinds'], first, '|defval' if case['dv'] else '')
+        vs = []
+        want_syn = {'MidType': syn_mid, 'BaseType': syn_base}
+        res, written = out['json']
+        src = texts['TEST-MIB']
+        if res.get('TEST-MIB') != 'compiled':
+            return 'notcompiled', [('%s|json|not-compiled' % sig, '%s\n%r %r' % (src, res.get('TEST-MIB'),
+                                                                                  getattr(res.get('TEST-MIB'), 'error', None)))], 2
+        doc = json.loads(written['TEST-MIB'])
+        for sym, syn in sorted(want_syn.items()):
+            for b in json_syntax_ok(doc.get(sym, {}).get('type') or {}, syn):
+                vs.append(('%s|json|%s|%s' % (sig, sym, b.split(' ')[0]), '%s: %s\n%s' % (sym, b, src)))
+        for sym, syn in (('dvObj', syn_obj), ('otherObj', ('ref', 'MidType'))):
+            for b in json_syntax_ok(doc.get(sym, {}).get('syntax') or {}, syn):
+                vs.append(('%s|json|%s|%s' % (sig, sym, b.split(' ')[0]), '%s: %s\n%s' % (sym, b, src)))
+        uni = refir.Universe([mod])
+        if case['dv']:
+            want = expected_denotation(uni, 'TEST-MIB', syn_obj, dv)
+            got = json_denotation(doc.get('dvObj', {}), uni, 'TEST-MIB', syn_obj)
+            if got != want:
+                vs.append(('%s|json|default-%s' % (sig, 'missing' if got is None else 'differs'),
+                           'DEFVAL %r denotes %r, document %r\n%s' % (dv, want, doc.get('dvObj', {}).get('default'), src)))
+        elif doc.get('dvObj', {}).get('default'):
+            vs.append(('%s|json|default-invented' % sig, '%r\n%s' % (doc['dvObj']['default'], src)))
+        res, written = out['pysnmp']
+        if res.get('TEST-MIB') != 'compiled':
+            vs.append(('%s|pysnmp|not-compiled' % sig, '%s\n%r %r' % (src, res.get('TEST-MIB'), getattr(res.get('TEST-MIB'), 'error', None))))
+            return 'notcompiled', vs, 2
+        ns, err = pysnmp_rec.run_module(written['TEST-MIB'], pysnmp_rec.RecBuilder())
+        if err:
+            if True:
+                vs.append(('%s|pysnmp|does-not-execute|%s' % (sig, err.split(':')[0]), '%s\n%s' % (err, src)))
+            return 'noexec', vs, 2
+        for sym, syn in sorted(want_syn.items()):
+            cls = ns.get(sym)
+            if not isinstance(cls, type) or not issubclass(cls, pysnmp_rec.Asn1Type):
+                vs.append(('%s|pysnmp|%s|no-class' % (sig, sym), '%r\n%s' % (cls, src)))
+                continue
+            inh = pysnmp_rec.constraints_of(ns['BaseType']) if sym == 'MidType' and isinstance(ns.get('BaseType'), type) else None
+            for bad in pysnmp_syntax_ok(cls, syn, parent_name=None if sym == 'BaseType' else 'BaseType', inherited=inh):
+                vs.append(('%s|pysnmp|%s|%s' % (sig, sym, bad.split(' ')[0]), '%s: %s\n%s' % (sym, bad, src)))
+        return 'ok', vs, 2
+
+
 class SameNamedTypes(object):
     name = 'same-named-types'
     describe = ('TEST-MIB and REMOTE-MIB each define a type called Mode with DIFFERENT base types, each with an object of that type '
@@ -529,4 +619,4 @@ class SameNamedTypes(object):
         return repr(outcome), vs, 2
 
 
-FAMILIES = [Refinements(), Defaults(), SameNamedTypes()]
+FAMILIES = [Refinements(), Defaults(), SameNamedTypes(), RefinedChains()]
